@@ -150,8 +150,9 @@ func (s *SSTableManager) candidateTablesForCompaction(compactionMaxSizeBytes uin
 	}
 
 	return compactionAction{
-		pathsToCompact: selectedPaths,
-		totalRecords:   numRecords,
+		pathsToCompact:      selectedPaths,
+		totalRecords:        numRecords,
+		includesOldestTable: len(selectedForCompaction) > 0 && selectedForCompaction[0],
 	}
 }
 
